@@ -408,3 +408,26 @@ Proof. vm_compute. repeat split; reflexivity. Qed.
 
 Print Assumptions C01_archive_roundtrip_nonvacuous.
 Print Assumptions C01_archive_roundtrip_readback.
+
+(* ---------- Tie A, decision logic (tools/src2v2.py -> gen/Src2.v): ArchiveFileBlock::dump re-translated from the source writes the model's ser_block ---------- *)
+From MLA Require SrcTie2.
+Check SrcTie2.dump_start.
+Theorem C01_tie_dump_start : ltac:(let t := type of SrcTie2.dump_start in exact t).
+Proof. exact SrcTie2.dump_start. Qed.
+Print Assumptions C01_tie_dump_start.
+Check SrcTie2.dump_content.
+Theorem C01_tie_dump_content : ltac:(let t := type of SrcTie2.dump_content in exact t).
+Proof. exact SrcTie2.dump_content. Qed.
+Print Assumptions C01_tie_dump_content.
+Check SrcTie2.dump_content_block.
+Theorem C01_tie_dump_content_block : ltac:(let t := type of SrcTie2.dump_content_block in exact t).
+Proof. exact SrcTie2.dump_content_block. Qed.
+Print Assumptions C01_tie_dump_content_block.
+Check SrcTie2.dump_eof.
+Theorem C01_tie_dump_eof : ltac:(let t := type of SrcTie2.dump_eof in exact t).
+Proof. exact SrcTie2.dump_eof. Qed.
+Print Assumptions C01_tie_dump_eof.
+Check SrcTie2.dump_end.
+Theorem C01_tie_dump_end : ltac:(let t := type of SrcTie2.dump_end in exact t).
+Proof. exact SrcTie2.dump_end. Qed.
+Print Assumptions C01_tie_dump_end.
